@@ -471,7 +471,8 @@ fn cmd_shift() {
     let stdout = std::io::stdout();
     let mut out = std::io::BufWriter::new(stdout.lock());
     for (id, dtd, limit, t) in read_cases() {
-        if t.starts_with('\u{feff}') || t.starts_with("<?xml ") {
+        let decl = t.starts_with("<?xml") && matches!(t.as_bytes().get(5), Some(b' ' | b'\t' | b'\n' | b'\r'));
+        if t.starts_with('\u{feff}') || decl {
             // white space may not precede a BOM / an XML declaration
             continue;
         }
